@@ -104,3 +104,11 @@ def model_cli(model, mode, files, rev=False, hexmode=False, plugins=True, bits=0
     for name, data, _ in files:
         args += [name, data]
     return model.call("cli", *args)
+
+
+def model_cli_o(model, mode, files, rev=False, hexmode=False, plugins=True, bits=0, sevs=(), ext=""):
+    """count / list / all on a directory some of whose entries cannot be opened (meta kind "unreadable")"""
+    args = [bytes([mode]), bytes([(1 if rev else 0) | (2 if hexmode else 0) | (4 if plugins else 0)]), bytes([bits]), bytes(sevs), ext]
+    for name, data, meta in files:
+        args += [name, bytes([0 if meta.get("kind") == "unreadable" else 1]), data]
+    return model.call("cli_o", *args)
